@@ -67,7 +67,7 @@ def run(ctx):
         broken = []
         ctx.extra["obligations_skipped"] = True
     else:
-        broken = ctx.lean_obligations(["ExoModel.Props.C10"])
+        broken = ctx.lean_obligations(["ExoModel.Props.C10", "ExoModel.Props.C10Context"])
     timing = {"obligations_s": round(time.time() - t0, 1)}
     ctx.extra["timing"] = timing
 
